@@ -1,5 +1,6 @@
 import Prom.Drv.Reg
 import Prom.Drv.Text
+import Prom.Model.DataModel
 /- `reg gathertext fmt=<table>` (C16): gather() of the model registry + the text encoder model -/
 namespace Prom.Drv
 open Prom
@@ -12,5 +13,43 @@ def gatherTextHandle (st : RegSt) (fs : List String) : String :=
     let (txt, ok) := Text.encode (fmtOf tbl) fams
     s!"{joinWith " | " (fams.map showFamily)} text={if ok then showHexBytes txt else "err"}"
   | _, none => "bad-op"
+
+/-- `reg raw …` (C16): a family built by hand with some fields left unset. It is built in the model of
+    the protobuf-generated types (`DM.PFamily`: optional fields) by the same setter calls, read through
+    the abstraction `DM.absFamily` (default on read = the plain model), and then shown / text-encoded
+    like a gathered family. Both builds of the real crate must give this one answer. -/
+def rawHandle (fs : List String) : String :=
+  let optS (k : String) : Option (Option Str) :=
+    match field fs k with
+    | none | some "none" => some none
+    | some v => match parseHexList v with | some [x] => some (some x) | _ => none
+  let optF (k : String) : Option (Option UInt64) :=
+    match field fs k with
+    | none | some "none" => some none
+    | some v => (parseF64 v).map some
+  match optS "name", optS "help", optS "lname", optS "lval", optF "cv", optF "gv", (field fs "fmt").bind parseFmtTable with
+  | some name, some help, some lname, some lval, some cv, some gv, some tbl =>
+    let ty : Option MType := match field fs "type" with | some "counter" => some .counter | some "gauge" => some .gauge | _ => none
+    let ts : Option Int := (field fs "ts").bind String.toInt?
+    let mops : List DM.MetricOp :=
+      (if field fs "label" == some "yes" then [DM.MetricOp.setLabel [{ name := lname, value := lval }]] else []) ++
+      (match cv with | some v => [DM.MetricOp.setCounterValue v] | none => []) ++
+      (match gv with | some v => [DM.MetricOp.setGaugeValue v] | none => []) ++
+      (match ts with | some t => [DM.MetricOp.setTimestamp t] | none => [])
+    let fops : List DM.FamilyOp :=
+      (match name with | some n => [DM.FamilyOp.setName n] | none => []) ++
+      (match help with | some h => [DM.FamilyOp.setHelp h] | none => []) ++
+      (match ty with | some t => [DM.FamilyOp.setType t] | none => []) ++ [DM.FamilyOp.setMetric [mops]]
+    let p : DM.PFamily := fops.foldl DM.PFamily.apply {}
+    let q := DM.absFamily p
+    let fam : Family :=
+      { name := q.name, help := q.help, ty := q.type,
+        samples := q.metric.map fun m =>
+          { labels := m.label.map fun l => ⟨l.name, l.value⟩,
+            val := (match q.type with | .counter => MVal.counter m.counter.value | .gauge => MVal.gauge m.gauge.value | _ => MVal.untyped 0),
+            ts := m.timestampMs } }
+    let (txt, ok) := Text.encode (fmtOf tbl) [fam]
+    s!"{showFamily fam} text={if ok then showHexBytes txt else "err"}"
+  | _, _, _, _, _, _, _ => "bad-op"
 
 end Prom.Drv
